@@ -214,3 +214,39 @@ func VerifHarness_C08_first() {
 		verifAssert(ws[0].is("A") || ws[0].is("5"), "first-message-of-connection-is-logon-or-logout")
 	}
 }
+
+func init() { verifRegister("C08_logon", VerifHarness_C08_logon) }
+
+// C08_logon: whenever the Logon handshake leaves the session logged on, the application has been told (OnLogon),
+// for every combination of the logon-related options, including NextExpectedMsgSeqNum (789) handling.
+func VerifHarness_C08_logon() {
+	initiator := ndBool("initiator")
+	r := verifNewSession(initiator, verifPickBeginString())
+	r.s.EnableNextExpectedMsgSeqNum = ndBool("EnableNextExpectedMsgSeqNum")
+	r.s.DisableMessagePersist = ndBool("DisableMessagePersist")
+	r.s.ResetOnLogon = ndBool("ResetOnLogon")
+	T := ndInt("T", verifSeqLo(), 40)
+	N := ndInt("N", verifSeqLo(), 40)
+	r.setCounters(T, N)
+	r.s.State = logonState{}
+	m := r.inbound("A", ndInt("S", verifSeqLo(), 45))
+	if ndBool("has-789") {
+		m.Body.SetInt(tagNextExpectedMsgSeqNum, ndInt("789", verifSeqLo(), 45))
+	}
+	if ndBool("has-141") {
+		m.Body.SetBool(tagResetSeqNumFlag, ndBool("141"))
+	}
+	r.s.fixMsgIn(r.s, m)
+	r.pump()
+	if r.s.IsLoggedOn() {
+		verifAssert(r.app.onLogon == 1 && r.app.inLogon, "logged-on-implies-logon-notification")
+	} else {
+		verifAssert(r.app.onLogon == 0 || r.app.onLogout == r.app.onLogon, "failed-logon-leaves-no-open-logon-notification")
+	}
+	ws := r.drain()
+	for i := range ws {
+		if c08FirstTimeApp(&ws[i]) {
+			verifAssert(false, "no-application-message-during-the-handshake")
+		}
+	}
+}
